@@ -296,6 +296,9 @@ TYPES = {
     "intsna": ("ints(allow_none_elements=True, allow_auto_elements=True)", "1 None"),
     "choice": ("choice", "*a b c"),
     "choicem": ("choice(multi=True)", "*a b *c"),
+    # alternatives quoted in the master because their names contain a blank
+    "choiceq": ("choice", 'fast "*very slow" off'),
+    "choicemq": ("choice(multi=True)", '*plain "semi bold" "extra bold"'),
     "float": ("float", "1.5"),
     "floats": ("floats", "1.5 2"),
 }
@@ -304,6 +307,10 @@ INT_BOUNDS = {"int": (None, None), "int09": (0, 9), "intnn": (None, None), "ints
               "ints13": (0, 99), "intsna": (None, None)}
 INTS_SIZE = {"ints": (0, 6), "ints2": (2, 2), "ints13": (1, 3), "intsna": (0, 5)}
 CHOICES = ["a", "b", "c"]
+CHOICE_ALTS = {"choice": CHOICES, "choicem": CHOICES, "choiceq": ["fast", "very slow", "off"],
+               "choicemq": ["plain", "semi bold", "extra bold"]}
+MULTI_CHOICE = ("choicem", "choicemq")
+SINGLE_CHOICE = ("choice", "choiceq")
 
 
 def rand_str(rng, maxlen=6):
@@ -338,7 +345,7 @@ def rand_word(rng):
 def in_domain_value(rng, tk, optional=None):
     """an in-domain value (JSON spec) for the type key; None/Auto where the type allows them"""
     r = rng.random()
-    if tk not in ("intnn",) and r < 0.06 and not (tk.startswith("choice") and optional is False) and tk != "choicem":
+    if tk not in ("intnn",) and r < 0.06 and not (tk.startswith("choice") and optional is False) and tk not in MULTI_CHOICE:
         return ["none"]
     if r < 0.12:
         return ["auto"]
@@ -374,12 +381,12 @@ def in_domain_value(rng, tk, optional=None):
                 if rng.random() < 0.3:
                     l[i] = rng.choice([["none"], ["auto"]])
         return ["list", l]
-    if tk == "choice":
-        return ["str", rng.choice(CHOICES)]
-    if tk == "choicem":
-        sel = [c for c in CHOICES if rng.random() < 0.5]
+    if tk in SINGLE_CHOICE:
+        return ["str", rng.choice(CHOICE_ALTS[tk])]
+    if tk in MULTI_CHOICE:
+        sel = [c for c in CHOICE_ALTS[tk] if rng.random() < 0.5]
         if optional is False and not sel:
-            sel = ["b"]
+            sel = [CHOICE_ALTS[tk][1]]
         return ["list", [["str", c] for c in sel]]
     if tk == "float":
         return ["float", rng.choice(FLOAT_POOL)]
@@ -418,6 +425,10 @@ def out_of_domain_value(rng, tk):
         return ["str", rng.choice(["d", "A", "", "*a"])], None
     if tk == "choicem":
         return ["list", [["str", "a"], ["str", rng.choice(["d", "B"])]]], None
+    if tk == "choiceq":
+        return ["str", rng.choice(["very", "slow", "Fast", "very  slow"])], None
+    if tk == "choicemq":
+        return ["list", [["str", "plain"], ["str", rng.choice(["bold", "semi  bold"])]]], None
     return None, None
 
 
@@ -480,6 +491,11 @@ class ConvRoundTrip(Stream):
             ["choicem", None, ["list", [["str", "c"], ["str", "a"]]], "order"],
             ["choicem", False, ["list", []], "ood"],
             ["choicem", None, ["none"], "ill"],
+            # alternatives quoted in the master keep their quotes when written (seeded change C09/m2)
+            ["choiceq", None, ["str", "very slow"], "dom"],
+            ["choiceq", None, ["str", "fast"], "dom"],
+            ["choicemq", None, ["list", [["str", "semi bold"], ["str", "extra bold"]]], "dom"],
+            ["choicemq", None, ["list", []], "dom"],
             ["words", None, ["words", [["a b", "2"], ["c", "n"]]], "dom"],
             ["words", None, ["list", []], "ill"],
         ]
@@ -612,8 +628,8 @@ class ConvRoundTrip(Stream):
         if fo[0] != "ok":
             return pre + "format refused the in-domain value %r: %r" % (vs, fo)
         want = self.expected(case)
-        if tk == "choicem" and want[0] == "list":
-            want = ["list"] + [x for x in [["str", c] for c in CHOICES] if x in want[1:]]     # selected names, master order
+        if tk in MULTI_CHOICE and want[0] == "list":
+            want = ["list"] + [x for x in [["str", c] for c in CHOICE_ALTS[tk]] if x in want[1:]]     # selected names, master order
         wit = tag.split(":", 1)[1] if tag.startswith("witness:") else None
         tkind = text_kind(fo[1])
         for what, got in (("format+extract", xo), ("format+print+parse+fetch+extract", to)):
@@ -892,26 +908,36 @@ def conv_val_obs(v):
 NAMES = ["a", "b", "c", "s", "t"]
 
 
-def gen_master(rng, depth=0, multiples=True, wf=True, types=None):
+EDGE_NAMES = ["__x", "_x", "x__", "__phil_x"]      # legal, non-reserved identifiers (reserved: >= 5 chars, starts AND ends with __)
+
+
+def gen_master(rng, depth=0, multiples=True, wf=True, types=None, split=False):
+    """split: a non-multiple scope may be written in two blocks of the same name holding different parameters
+    (the second block directly after the first or at the end of the enclosing scope); names then also come from
+    the identifier edge set"""
     types = types or MODELLED_TYPES
     out = []
+    later = []
     used = []
     for _ in range(rng.randint(1, 4 if depth == 0 else 3)):
-        name = rng.choice(NAMES)
+        name = rng.choice(EDGE_NAMES) if split and rng.random() < 0.3 else rng.choice(NAMES)
         if wf and name in used:
             continue
         used.append(name)
         mult = multiples and rng.random() < 0.3
         opt = rng.choice([None, None, True, False])
         dis = (not wf) and rng.random() < 0.1
-        if rng.random() < 0.65 or depth >= 2:
-            tk = rng.choice(types)
-            if tk.startswith("choice") and opt is False and tk == "choice":
-                pass
-            out.append(["d", name, tk, opt, mult, dis, None])
+        if rng.random() < (0.5 if split else 0.65) or depth >= 2:
+            out.append(["d", name, rng.choice(types), opt, mult, dis, None])
         else:
-            out.append(["s", name, opt, mult, dis, gen_master(rng, depth + 1, multiples, wf, types)])
-    return out
+            kids = gen_master(rng, depth + 1, multiples, wf, types, split)
+            if split and not mult and len(kids) >= 2 and rng.random() < 0.7:
+                cut = rng.randint(1, len(kids) - 1)
+                out.append(["s", name, opt, mult, dis, kids[:cut]])
+                (out if rng.random() < 0.5 else later).append(["s", name, opt, mult, dis, kids[cut:]])
+            else:
+                out.append(["s", name, opt, mult, dis, kids])
+    return out + later
 
 
 def render_master(nodes, ind=""):
@@ -958,6 +984,8 @@ SRC_TEXTS = {
     "intsna": ["1 None 2", "Auto 3", "None", "4"],
     "choice": ["b", "*c", "a", "None", "Auto"],
     "choicem": ["b", "a+c", "*a *b", "None", "a b c", "Auto"],
+    "choiceq": ["off", '"very slow"', "*fast", "None", 'fast "*very slow" off'],
+    "choicemq": ['"semi bold"', '*plain "*extra bold"', "None", 'plain "*semi bold" "extra bold"', "Auto"],
     "float": ["2.5", "1e3", "None", "1/3"],
     "floats": ["0.5 1e-3", "None", "7"],
 }
@@ -974,10 +1002,8 @@ def gen_source(rng, nodes, ind=""):
             if n[0] == "d":
                 tk = n[2]
                 txt = rng.choice(SRC_TEXTS[tk])
-                if tk == "choice" and n[3] is False and txt == "None":
-                    txt = "a"
-                if tk == "choicem" and n[3] is False and txt == "None":
-                    txt = "b"
+                if tk in SINGLE_CHOICE + MULTI_CHOICE and n[3] is False and txt == "None":
+                    txt = '"%s"' % CHOICE_ALTS[tk][1]
                 if tk == "intnn" and txt == "None":
                     txt = "1"
                 lines.append("%s%s = %s" % (ind, n[1], txt))
@@ -1052,6 +1078,10 @@ class ScopeRoundTrip(Stream):
              "expect": ["scope", "", [["c", ["scope", "c", [["a", ["slist", ["none"], ["num", ["i", "1"]]]]]]]]]},
             {"m": [s("c", [d("a", "str", dis=True, dflt="x"), d("a", "int", mult=True)])], "src": "", "mut": [], "kind": "regress", "direct": True,
              "expect": ["scope", "", [["c", ["scope", "c", [["a", ["slist", ["none"], ["num", ["i", "1"]]]]]]]]]},
+            # a non-multiple scope written in two blocks; a later block declares a name that starts with two underscores
+            {"m": [s("s", [d("a", "int")]), s("t", [s("s", [d("b", "str")]), s("s", [d("__x", "int")])], mult=True),
+                   s("s", [d("__x", "int"), d("x__", "key")])], "src": "s.__x = 5\nt { s.__x = 7 }\n", "mut": [[["s", "__x"], ["int", "9"]]],
+             "kind": "split"},
             {"m": [d("a", "int"), s("s", [d("b", "str"), d("c", "choicem")])], "src": "a = 5\ns.b = x y\n", "mut": [[["s", "b"], ["str", "q\"r"]]], "kind": "nomult"},
             {"m": [d("a", "ints", mult=True), s("s", [d("b", "bool")], mult=True)], "src": "a = 1 2\na = 3\ns { b = False }\ns { b = None }\n",
              "mut": [[["a"], ["mlist", [["list", [["int", "7"]]]]]], [["s"], ["mdup", 0]]], "kind": "mult"},
@@ -1064,10 +1094,12 @@ class ScopeRoundTrip(Stream):
         n = 1000 if tier == "quick" else 9000
         for i in range(n):
             r = i % 10
-            if r < 4:
+            if r < 3:
                 kind, nodes = "nomult", gen_master(rng, multiples=False)
-            elif r < 8:
+            elif r < 6:
                 kind, nodes = "mult", gen_master(rng, multiples=True)
+            elif r < 8:
+                kind, nodes = "split", gen_master(rng, multiples=(i % 20 >= 10), split=True)
             elif r < 9:
                 kind, nodes = "loose", gen_master(rng, multiples=True, wf=False)
             else:
@@ -1244,7 +1276,7 @@ class ScopeRoundTrip(Stream):
         # checked on the implementation only ; masters with .multiple: object route only
         if case.get("witness"):
             return case["witness"] in self.open
-        return case["kind"] in ("nomult", "mult", "float", "regress")
+        return case["kind"] in ("nomult", "mult", "float", "regress", "split")
 
     def key(self, case, o):
         return json.dumps([case["m"], case["src"], case["mut"]]) if isinstance(o, dict) else None
